@@ -202,8 +202,6 @@ namespace occa {
     const char *c0 = c;
 
     bool negative  = false;
-    bool unsigned_ = false;
-    int longs      = 0;
 
     lex::skipWhitespace(c);
 
@@ -220,36 +218,11 @@ namespace occa {
       ret += *(c++) - '0';
     }
 
-    while(*c != '\0') {
-      const char C = uppercase(*c);
-
-      if (C == 'L') {
-        ++longs;
-      } else if (C == 'U') {
-        unsigned_ = true;
-      } else {
-        break;
-      }
-      ++c;
-    }
-
+    // The value is returned in full: a U/L suffix does not
+    //   change it and callers choose the type that holds it
     if (negative) {
       ret = ((~ret) + 1);
     }
-    if (longs == 0) {
-      if (!unsigned_) {
-        ret = ((udim_t) ((int) ret));
-      } else {
-        ret = ((udim_t) ((unsigned int) ret));
-      }
-    } else if (longs == 1) {
-      if (!unsigned_) {
-        ret = ((udim_t) ((long) ret));
-      } else {
-        ret = ((udim_t) ((unsigned long) ret));
-      }
-    }
-    // else it's already in udim_t form
 
     return ret;
   }
